@@ -369,13 +369,13 @@ def cli_chains(ck, tier):
     import subprocess
     import sys as _sys
     base = tlc.subdir("c15cli")
-    text = ("hostname kitten-core1\n enable password CHANGEME\nenable password MyResvWord extra\nusername zurnet password 7 0822455D0A16544541\n"
+    text = ("hostname kitten-lab\ndescription corp-zurnet uplink kitten-lab2\nhostname kitten-core1\n enable password CHANGEME\nenable password MyResvWord extra\nusername zurnet password 7 0822455D0A16544541\n"
             "snmp-server community MyResvWord RO\nsnmp-server community S3cr3tCommXq RW\n ip address 11.22.33.44 255.255.255.0\n no ip address\n"
             "router bgp 65001\n neighbor 198.51.100.7 remote-as 4200000001\n neighbor 2001:db8:42::cafe:1 remote-as 12\n key-string 7 0822455D0A16544541\nend\n")
     with open(os.path.join(base, "in.cfg"), "w") as fh:
         fh.write(text)
     traces, meta = [], []
-    for ri, ropts in enumerate((["-r", "CHANGEME,MyResvWord"], [])):
+    for ri, ropts in enumerate((["-r", "CHANGEME,MyResvWord,kitten-lab,corp-zurnet"], [])):
         salt = ["cli-salt", "Qz"][ri]
         flag = {"pwd": ["-p"], "ip": ["-a"], "word": ["-w", ",".join(WORDS)], "as": ["-n", ",".join(asns_for(salt))]}
         jobs, plan = [], []
@@ -422,6 +422,7 @@ ADV = {
     "brk_1": "[", "brk_10": "[" * 10, "brk_2000": "[" * 2000, "quote_10": '"' * 10, "nest_1500": "{" * 1500 + "x" + "}" * 1500,
     "empty": "", "uni": "é中文", "ctrl0": "a\x00b", "ctrl1f": "a\x1fb", "ls2028": "a b", "nbsp": "a b", "long5000": "Z" * 5000,
     "d1": "$1", "dx": "$x", "d6": "$6", "d9": "$9", "d_only": "$", "one": "a", "two": "ab", "d1d": "$1$", "dd": "$$",
+    "turkic_i": "K\u0130TTEN-gw k\u0131tten \u0130tten", "long_s": "zurnet-ca\u017fe \u017fecret",
     "plainword": "description", "num7": "7", "type7": "02050D480809", "hexval": "ABCDEF12", "v4addr": "10.1.2.3", "v6addr": "2001:db8::1", "asnum": "65001", "word": "kitten",
 }
 FRAMES = {
@@ -456,7 +457,7 @@ def run_c14(ck, tier):
         # quick: every case of the core vocabulary, a seed-dependent half of the rest (thorough runs all of them)
         core = {"bs_n", "bs_1", "bs_g", "bs_d", "bs_end", "paren", "star", "md5_salt9", "md5_salt0", "md5_nohash", "j9_short", "j9_foreign", "j9_valid", "md5_emptysalt",
                 "md5_emptysalt2", "md5_dollars", "j9_underscore", "j9_nonascii", "sha_longsalt", "sha_rounds_big", "fe80_pct", "fe80_1_pct", "brk_2000", "quote_10", "empty",
-                "uni", "plainword", "num7", "d1", "dx", "d6", "d_only", "two"}
+                "uni", "plainword", "num7", "d1", "dx", "d6", "d_only", "two", "turkic_i"}
         cases = [c for c in cases if all(x in core for x in c["slots"]) or r.random() < 0.5]
         ck.notes["quick_sampled_cases"] = len(cases)
     traces, meta = [], []
